@@ -64,6 +64,10 @@ pub struct Case {
     /// byte offsets are unchanged, the LINE FEED after the `stream` keyword stays as 7.3.8.1 requires)
     #[serde(default)]
     pub cr_eol: bool,
+    /// synthesized sources only: no white space between `obj` and a body that starts with a delimiter
+    /// (`7 0 obj[1 2]`, `8 0 obj(text)`, `1 0 obj<< … >>`), and /Kids and /MediaBox given as indirect arrays
+    #[serde(default)]
+    pub compact: bool,
 }
 
 fn to_cr(b: &[u8]) -> Vec<u8> {
@@ -87,10 +91,11 @@ fn to_cr(b: &[u8]) -> Vec<u8> {
     out
 }
 
-fn build(src: &Source) -> Result<Vec<u8>, String> {
+fn build(src: &Source, compact: bool) -> Result<Vec<u8>, String> {
     match src {
         Source::Synth { objects } => {
             let mut b = Builder::new("1.4");
+            b.compact_obj = compact;
             b.add_object(1, 0, &Obj::Dict(dict(vec![("Type", Obj::name("Catalog")), ("Pages", Obj::Ref(2, 0))])));
             b.add_object(2, 0, &Obj::Dict(dict(vec![("Type", Obj::name("Pages")), ("Kids", Obj::Arr(vec![Obj::Ref(3, 0)])), ("Count", Obj::Int(1))])));
             b.add_object(
@@ -379,7 +384,9 @@ fn snapshot(bytes: &[u8], opts: ParseOptions, nums: &[u32]) -> Result<Snapshot, 
 pub fn check(c: &Case) -> Outcome {
     let mut o = Outcome::new();
     let cr = c.cr_eol && matches!(c.source, Source::Synth { .. });
-    let intact = match build(&c.source) {
+    let compact = c.compact && matches!(c.source, Source::Synth { .. });
+    o.label_if(compact, "layout=compact-obj-headers");
+    let intact = match build(&c.source, compact) {
         Ok(b) if cr => to_cr(&b),
         Ok(b) => b,
         Err(e) => {
@@ -558,7 +565,7 @@ fn source() -> impl Strategy<Value = Source> {
 }
 
 fn strategy() -> impl Strategy<Value = Case> {
-    (source(), prop::collection::vec(damage(), 1..3), prop::bool::weighted(0.2)).prop_map(|(source, damage, cr_eol)| Case { source, damage, cr_eol })
+    (source(), prop::collection::vec(damage(), 1..3), prop::bool::weighted(0.2), prop::bool::weighted(0.3)).prop_map(|(source, damage, cr_eol, compact)| Case { source, damage, cr_eol, compact })
 }
 
 /// Fixed base files × every single catalogue operation (complete enumeration of the catalogue).
@@ -601,9 +608,10 @@ fn catalogue_cases() -> Vec<Case> {
     let mut v = Vec::new();
     for b in &bases {
         for op in &ops {
-            v.push(Case { source: b.clone(), damage: vec![op.clone()], cr_eol: false });
+            v.push(Case { source: b.clone(), damage: vec![op.clone()], cr_eol: false, compact: false });
             if matches!(b, Source::Synth { .. }) {
-                v.push(Case { source: b.clone(), damage: vec![op.clone()], cr_eol: true });
+                v.push(Case { source: b.clone(), damage: vec![op.clone()], cr_eol: true, compact: false });
+                v.push(Case { source: b.clone(), damage: vec![op.clone()], cr_eol: false, compact: true });
             }
         }
     }
